@@ -29,6 +29,16 @@ _ARITH = {_np.add, _np.subtract, _np.multiply, _np.true_divide, _np.negative, _n
           _np.invert}
 
 
+def _bools_to_num(a):
+    flat = a.reshape(-1).tolist()
+    if not any(isinstance(v, SBool) for v in flat):
+        return a
+    out = _np.empty(len(flat), dtype=object)
+    for i, v in enumerate(flat):
+        out[i] = v._r() if isinstance(v, SBool) else (int(v) if isinstance(v, (bool, _np.bool_)) else v)
+    return out.reshape(a.shape)
+
+
 class SymArr(_np.ndarray):
     """ndarray subclass, dtype=object, elements SReal/SInt/SBool or plain numbers."""
 
@@ -68,6 +78,10 @@ class SymArr(_np.ndarray):
         if out is not None:
             kwargs["out"] = tuple(
                 o.view(_np.ndarray) if isinstance(o, _np.ndarray) else o for o in out)
+        if ufunc is _np.add and method != "__call__":
+            # sum / cumsum of booleans counts (numpy promotes bool to int in reductions)
+            ins = [_np.asarray(_bools_to_num(a), dtype=object) if isinstance(a, _np.ndarray) and a.dtype == object
+                   else a for a in ins]
         if ufunc is _np.logical_and:
             ufunc = _np.bitwise_and
         elif ufunc is _np.logical_or:
